@@ -3,6 +3,7 @@ import re
 from .model import *
 from .facts import Site, op_place, Call, proj_field_name
 from .c17 import RC
+from .fields import fields
 
 EXPLANATION = ("decides necessary structural conditions only: inside the election function the candidate vector is touched only through order-insensitive "
                "reductions (len, any/all, filter_map/map + min, retain with element-local predicates, into_iter+map+collect), so the elected *set* cannot "
@@ -117,17 +118,17 @@ def r3(run, db):
         if stops:
             # loop head: the into_iter over election.losers
             heads = [c for c in f.calls() if c.matches(r"IntoIterator>::into_iter$|IntoIterator::into_iter$") and f.dominates(c.site, stops[0].site) and se and f.edge_dominates(se, c.site)
-                     and any("losers" in [proj_field_name(e) for e in r.get("proj", []) + r.get("trail", []) if e.startswith("f:")] for r in f.origins(c.args[0]))]
+                     and any(fields(db).se_losers in [proj_field_name(e) for e in r.get("proj", []) + r.get("trail", []) if e.startswith("f:")] for r in f.origins(c.args[0]))]
             run.check(len(heads) == 1 and all_paths_from_edge_pass(f, se, [heads[0].site]), "commit|losers-always-stopped", "every path from Some(election) enters the loser loop (also when the committing session itself lost)",
                       "a path (e.g. the early return for a losing candidate) skips stopping the losers: with indistinguishable nonces both physical connections stay open", f.where())
-            okarg = any(any(proj_field_name(e) == "losers" for e in r.get("proj", []) + r.get("trail", []) if e.startswith("f:")) for r in f.origins(stops[0].args[0], through=lambda cc: 0 if cc.matches(r"Iterator>::next$|IntoIterator>::into_iter$|Deref>::deref$") else None))
+            okarg = any(any(proj_field_name(e) == fields(db).se_losers for e in r.get("proj", []) + r.get("trail", []) if e.startswith("f:")) for r in f.origins(stops[0].args[0], through=lambda cc: 0 if cc.matches(r"Iterator>::next$|IntoIterator>::into_iter$|Deref>::deref$") else None))
             run.check(okarg, "commit|stops-the-losers", "the sessions stopped are election.losers", None, stops[0].where())
         auth_cb = [c for c in f.calls() if c.matches(r"NodeEventSubscription::node_session_authenticated$")]
         sv = []
         for site, t in f.switches():
             if t["dty"] == "bool":
                 roots = f.origins(t["discr"])
-                if any(any(proj_field_name(e) == "candidate_survives" for e in r.get("proj", []) + r.get("trail", []) if e.startswith("f:")) for r in roots):
+                if any(any(proj_field_name(e) == fields(db).se_survives for e in r.get("proj", []) + r.get("trail", []) if e.startswith("f:")) for r in roots):
                     sv.append(site)
         good = bool(auth_cb) and bool(sv) and any((f.edge_of(s, "true") and f.edge_dominates(f.edge_of(s, "true"), auth_cb[0].site)) for s in sv)
         run.check(good, "commit|authenticated-cb-on-survives", "node_session_authenticated is reported only if the candidate survives", "authenticated callback not gated by candidate_survives", f.where())
